@@ -179,6 +179,12 @@ def own_program(rng) -> str:
 
 
 HAND = [
+    # signed comparisons next to a shared literal set: only `X = t` and `not X != t` are assignments
+    "far(X,Z) :- edge(X,Y), edge(Y,Z), active, not not X != Z. hop(X,Z) :- edge(X,Y), edge(Y,Z), active, not blocked(Y).",
+    "far(X,Z) :- edge(X,Y), edge(Y,Z), active, not X != Z. hop(X,Z) :- edge(X,Y), edge(Y,Z), active, not blocked(Y).",
+    "far(X,Z) :- edge(X,Y), edge(Y,Z), active, not not X = Z. hop(X,Z) :- edge(X,Y), edge(Y,Z), active.",
+    "far(X,Z) :- edge(X,Y), edge(Y,Z), active, not X = Z. hop(X,Z) :- edge(X,Y), edge(Y,Z), active, X = Z.",
+    ":~ edge(X,Y), edge(Y,I), active, not not I != 0. [I@1,X] hop(X,Z) :- edge(X,Y), edge(Y,Z), active.",
     "foo(X) :- a(X), b(X,Y), Y > 1, e(X).\nbar(Z) :- a(Z), b(Z,W), W > 1, not g(Z), Q = Z, h(Q).\n"
     ":- r(U) : a(U), b(U,V), V>1; r(U) : a(U), b(U,V), V>1, c(U).\ns(S) :- S = #sum { T : a(T), b(T,V), V>1 }.",
     ":- r(U) : a(U), b(U); s(U) : a(U), b(U).",
